@@ -8,14 +8,14 @@ REPO = os.environ.get('VERIF_REPO', '/repo')
 LIFT = os.path.join(VERIF, 'lift')
 REPLAY_DIR = os.environ.get('VERIF_REPLAY_DIR', os.path.join(VERIF, 'replay'))
 NCPU = int(os.environ.get('VERIF_JOBS', str(os.cpu_count() or 4)))
-MEM_KB = int(os.environ.get('VERIF_MEM_KB', str(20 * 1024 * 1024)))
+MEM_KB = int(os.environ.get('VERIF_MEM_KB', str(12 * 1024 * 1024)))
 
 CLANG_FLAGS = ['-std=c++17', '-O1', '-fno-vectorize', '-fno-slp-vectorize', '-fno-unroll-loops',
                '-D_GLIBCXX_ASSERTIONS', '-DLIBOCCA_OCCA_VERIF', '-Wno-everything']
 CBMC_FLAGS = ['--unwinding-assertions', '--pointer-overflow-check', '--undefined-shift-check',
               '--signed-overflow-check', '--drop-unused-functions', '--no-malloc-may-fail',
               '--no-standard-checks', '--bounds-check', '--pointer-check', '--div-by-zero-check',
-              '--pointer-primitive-check', '--malloc-fail-null']
+              '--pointer-primitive-check', '--object-bits', '12', '--malloc-fail-null']
 # note: --no-standard-checks then explicit list, so that the set of checks is stated here and
 # does not depend on CBMC defaults.  (--malloc-fail-null only names the failure mode; with
 # --no-malloc-may-fail malloc never fails: allocation failure is outside every claim.)
@@ -250,6 +250,9 @@ def cbmc_run(ctx, files, defines=(), unwind=None, unwindset=(), timeout=120, bac
             if 'trace' in p and r.trace_inputs is None:
                 r.trace_inputs = extract_inputs(p['trace'])
                 r.trace_prop = p.get('property')
+    if verdict not in ('success', 'failure'):
+        r.status = 'inconclusive'; r.reason = 'cbmc status %s: %s' % (verdict, ' | '.join(msgs)[-600:])
+        return r
     r.status = 'pass' if verdict == 'success' else 'fail'
     if verdict == 'failure' and not r.failed and not trace:
         r.status = 'inconclusive'; r.reason = 'failure without failed property'
@@ -296,7 +299,7 @@ def native_build(ctx, L, harness, defines=(), sanitize=True, tag='n'):
     exe = os.path.join(L.dir, 'native_' + key)
     if os.path.exists(exe):
         return exe
-    san = ['-fsanitize=address,undefined', '-fno-sanitize-recover=undefined'] if sanitize else []
+    san = ['-fsanitize=address,undefined', '-fno-sanitize-recover=undefined', '-fno-sanitize=vptr'] if sanitize else []
     wobj = os.path.join(L.dir, 'wrap_%s.o' % ('san' if sanitize else 'plain'))
     if not os.path.exists(wobj):
         cmd = ['g++', '-std=c++17', '-O1', '-g', '-ffunction-sections', '-fdata-sections', '-D_GLIBCXX_ASSERTIONS', '-DLIBOCCA_OCCA_VERIF', '-w'] + san + include_flags(ctx, L.sharable) \
@@ -561,8 +564,11 @@ def load_known(pid):
 # ---------------------------------------------------------------- evidence + exit
 
 def finish(ctx, bounds=None, rule='', trusted=None, extra=None):
+    if len(ctx.queries) > 400:
+        # keep the evidence file readable: full records for failures/inconclusive ones, a compact line for the rest
+        ctx.queries = [r if r.get('status') != 'pass' else {k: r.get(k) for k in ('query', 'status', 'seconds', 'witness')} for r in ctx.queries]
     wall = time.time() - ctx.t0
-    nontrivial = sum(1 for r in ctx.queries if r.get('status') in ('pass', 'fail') and (r.get('witness') == 'reached' or r.get('status') == 'fail' or r.get('programs')))
+    nontrivial = sum(1 for r in ctx.queries if r.get('status') in ('pass', 'fail') and (r.get('witness') == 'reached' or r.get('status') == 'fail' or r.get('programs') or ctx.extra.get('count_all_verdicts')))
     fnames = sorted(ctx.functions)
     dem = demangle(fnames) if fnames else []
     cov = {
